@@ -23,16 +23,10 @@ verus! {
 //@   ensures [assumed.dirrec.exact] (final(result)@.len() == old(result)@.len()) <==> crate::directive_not_recursive(definition_map, directive)
 //@ end
 
-//@ contract nitrogql_checker::type_system_checker ::fn check_scalar
+//@ fragment contract_check_scalar.rs
 //@   unexternal
-//@   ensures [C05.ts_scalar.frame] crate::extends_errs(old(result)@, final(result)@)
-//@   ensures [C05.ts_scalar.sound] final(result)@.len() == old(result)@.len() ==> crate::valid_scalar(scalar, definition_map)
-//@   ensures [C05.ts_scalar.complete] crate::valid_scalar(scalar, definition_map) ==> final(result)@.len() == old(result)@.len()
 //@ end
-//@ contract nitrogql_checker::type_system_checker ::fn check_schema
-//@   ensures [C05.ts_schema.frame] crate::extends_errs(old(result)@, final(result)@)
-//@   ensures [C05.ts_schema.sound] final(result)@.len() == old(result)@.len() ==> crate::valid_schema_def(d, definitions)
-//@   ensures [C05.ts_schema.complete] crate::valid_schema_def(d, definitions) ==> final(result)@.len() == old(result)@.len()
+//@ fragment contract_check_schema.rs
 //@ end
 
 //@ fragment contract_argsdef.rs
@@ -51,11 +45,8 @@ verus! {
 //@   suffix [C05.argsdef.h_exit] proof { reveal(crate::valid_argsdef); }
 //@ end
 
-//@ contract nitrogql_checker::type_system_checker ::fn check_union
+//@ fragment contract_check_union.rs
 //@   unexternal
-//@   ensures [C05.ts_union.frame] crate::extends_errs(old(result)@, final(result)@)
-//@   ensures [C05.ts_union.sound] final(result)@.len() == old(result)@.len() ==> crate::valid_union(union, definitions)
-//@   ensures [C05.ts_union.complete] crate::valid_union(union, definitions) ==> final(result)@.len() == old(result)@.len()
 //@   loops 1
 //@   loop 0 iter_name it
 //@   loop 0 invariant [C05.ts_union.loop.iter] it.seq().len() == union.members@.len() && 0 <= it.index@ <= it.seq().len() && (forall|i: int| 0 <= i < it.seq().len() ==> *it.seq()[i] == union.members@[i])
@@ -71,11 +62,8 @@ verus! {
 //@   hint after 0 "seen_members.push(member.name);" :: [C05.ts_union.h_pushed] proof { crate::lemma_names_push(seen0, seen_members, member.name); }
 //@ end
 
-//@ contract nitrogql_checker::type_system_checker ::fn check_input_object
+//@ fragment contract_check_input_object.rs
 //@   unexternal
-//@   ensures [C05.ts_input.frame] crate::extends_errs(old(result)@, final(result)@)
-//@   ensures [C05.ts_input.sound] final(result)@.len() == old(result)@.len() ==> crate::valid_input_object(input, definitions)
-//@   ensures [C05.ts_input.complete] crate::valid_input_object(input, definitions) ==> final(result)@.len() == old(result)@.len()
 //@   loops 1
 //@   loop 0 iter_name it
 //@   loop 0 invariant [C05.ts_input.loop.iter] it.seq().len() == input.fields@.len() && 0 <= it.index@ <= it.seq().len() && (forall|i: int| 0 <= i < it.seq().len() ==> *it.seq()[i] == input.fields@[i])
@@ -90,11 +78,8 @@ verus! {
 //@   closure 0 |k: crate::nitrogql_checker::types::TypeInOutKind| -> (b: bool) ;; ensures [C05.ts_input.cl] b == !(k is Input || k is Both)
 //@ end
 
-//@ contract nitrogql_checker::type_system_checker ::fn check_directive
+//@ fragment contract_check_directive.rs
 //@   unexternal
-//@   ensures [C05.ts_directive.frame] crate::extends_errs(old(result)@, final(result)@)
-//@   ensures [C05.ts_directive.sound] final(result)@.len() == old(result)@.len() ==> crate::valid_directive_def(d, definitions)
-//@   ensures [C05.ts_directive.complete] crate::valid_directive_def(d, definitions) ==> final(result)@.len() == old(result)@.len()
 //@ end
 
 //@ canary
